@@ -205,6 +205,15 @@ func c17Pair(c *rt.Ctx, fsType string, h int) {
 	le.Exec(mk)
 	we.Exec(c05Conv(wv, mk))
 	wroot := avfs.FromUnixPath(wv, "/w")
+	// one history in four starts with relative paths that cross a link to an absolute path and then climb back to the
+	// root of the volume (the part of EvalSymlinks where a Windows volume name has to be carried along)
+	var queue []fsx.Op
+	if fsType == "MemFS" && h%4 == 0 {
+		queue = []fsx.Op{{K: "Mkdir", P: "/w/t", Perm: 0o755}, {K: "WriteFile", P: "/w/t/f", Data: "tf", Perm: 0o644}, {K: "WriteFile", P: "/w/g", Data: "g", Perm: 0o644},
+			{K: "Symlink", P: "/w/t", Q: "/w/abs"}, {K: "Symlink", P: "t/f", Q: "/w/rel"}, {K: "Symlink", P: "/", Q: "/w/top"}, {K: "Symlink", P: "w/g", Q: "/toprel"},
+			{K: "Chdir", P: "/w"}, {K: "EvalSymlinks", P: "abs/f"}, {K: "EvalSymlinks", P: "abs/../g"}, {K: "EvalSymlinks", P: "abs/../../w/t/f"},
+			{K: "EvalSymlinks", P: "rel"}, {K: "EvalSymlinks", P: "top/w/g"}, {K: "EvalSymlinks", P: "top/toprel"}, {K: "ReadFile", P: "top/toprel"}, {K: "Chdir", P: "/"}}
+	}
 	n := c.Pick(60, 120)
 	for i := 0; i < n; i++ {
 		fsx.BeginCall()
@@ -246,6 +255,9 @@ func c17Pair(c *rt.Ctx, fsType string, h int) {
 		}
 		g.Observe(ls.Recs, lcwd)
 		o := g.Next()
+		if len(queue) > 0 {
+			o, queue = queue[0], queue[1:]
+		}
 		if o.K == "RemoveAll" && r.IntN(6) == 0 {
 			o.P = []string{"/", "/w", "/w/.."}[r.IntN(3)] // the whole volume / the whole compared subtree
 		}
@@ -295,6 +307,10 @@ func c17Pair(c *rt.Ctx, fsType string, h int) {
 		}
 		if lok != wok {
 			c.Disagree(fmt.Sprintf("%s|%s|linux:%s|windows:%s", fsType, o.K, lr.Err, wr.Err), fmt.Sprintf("%s: %s: the Linux-typed file system answers %s, the Windows-typed one (%s) answers %s (%s) after %v", fsType, o, lr.Err, wo, wr.Err, wr.Raw, hist[max(0, len(hist)-8):len(hist)-1]), replay())
+			return
+		}
+		if lok && o.K == "EvalSymlinks" && c17Unix(wv, wv.FromSlash(wr.Val)) != lr.Val && c17Unix(wv, wr.Val) != lr.Val {
+			c.Disagree(fmt.Sprintf("%s|EvalSymlinks|values-differ", fsType), fmt.Sprintf("%s: %s returns %q on the Linux-typed and %q on the Windows-typed file system", fsType, o, lr.Val, wr.Val), replay())
 			return
 		}
 		// returned data of successful reads is part of "contents"
